@@ -350,6 +350,37 @@ def rule_handlers(ctx, tu):
     ctx.floor(R, 10)
 
 
+def rule_complete(ctx, tu):
+    """C09.COMPLETE -- who may end a run: completion is flagged only past t_max (CheckTMax: t_max >= 0 and t > t_max) or in a
+    state where no event can happen (total propensity zero).  Flagging it anywhere else -- when the requested times are used
+    up, after a number of records -- ends the run before 'the first step beyond t_max'."""
+    R = "C09.COMPLETE"
+    n = 0
+    for f in tu.all_fns():
+        if f.body is None or f.name == "FlagAsComplete":
+            continue
+        if not any(x.get("kind") == "CXXMemberCallExpr" and (call_parts(x) or ("",))[0] == "FlagAsComplete" for x in walk(f.body)):
+            continue
+        recs = []
+
+        def on(node, facts, recs=recs):
+            cp = call_parts(node) if strip(node).get("kind") == "CXXMemberCallExpr" else None
+            if cp and cp[0] == "FlagAsComplete":
+                recs.append((node, facts))
+        cxa.canon_facts(f.body, on_atom=on)
+        ctx.need(recs, R, "%s: FlagAsComplete() call not reached by the walk" % f.qual)
+        for node, facts in recs:
+            past = ("t_max < t", True) in facts
+            dead = ("a0 == 0", True) in facts or ("a0 <= 0", True) in facts or ("0 < a0", False) in facts
+            n += 1
+            ctx.check(past or dead, R, node, f.qual, "FlagAsComplete() under %s" % ("t > t_max" if past else "a0 == 0" if dead
+                      else sorted(str(a) for a, p_ in facts)[:3]), "past t_max, or nothing can happen any more",
+                      "the run is flagged complete where neither `t > t_max` nor `a0 == 0` is known: it ends before the first "
+                      "step beyond t_max (for instance as soon as the requested sample times are used up)")
+    ctx.need(n >= 4, R, "only %d FlagAsComplete() call sites found" % n)
+    ctx.floor(R, 4)
+
+
 def pya_atoms(t):
     from .. import pya
     return pya.atoms(t, True)
@@ -382,6 +413,7 @@ def run(ctx):
     rule_order(ctx, tu, eff)
     rule_policy_tab(ctx, tu, py)
     rule_handlers(ctx, tu)
+    rule_complete(ctx, tu)
     rule_tmax(ctx, py)
     from .. import ffi
     from . import c11
